@@ -6,7 +6,7 @@ from hypothesis import strategies as st
 
 from checks import _simclu as S
 from checks import _simutil as U
-from vlib.harness import hyp_part
+from vlib.harness import EnumPart, hyp_part
 
 PID = "C25"
 TITLE = "Host state changes keep a single reconnector and notify listeners once"
@@ -21,7 +21,8 @@ RULE = ("A case is 2-3 fake nodes (optionally one IGNORED by the load-balancing 
         "next k connection attempts, the control node pushes STATUS_CHANGE UP/DOWN or TOPOLOGY_CHANGE NEW_NODE/REMOVED_NODE "
         "(with or without the system tables agreeing), a node leaves / rejoins the topology, the node list is refreshed, a "
         "request is executed, the virtual clock advances by 0.05-3 s; a schedule tape picks the runnable virtual thread at "
-        "every choice point.  At the end every node is made reachable and 6 s pass.  Non-trivial: some host went down, "
+        "every choice point (a 'tape' event re-arms it mid-history).  An enumerated part plays 'UP announced while the host is "
+        "still unreachable' with 1-2 sessions under every schedule tape over {0,1,2} of length <= 4 (thorough: 6).  At the end every node is made reachable and 6 s pass.  Non-trivial: some host went down, "
         "failed at least one reconnection attempt and came back up, or a host was removed while it had a reconnector.  "
         "Distinct by case digest.")
 ASSUMPTIONS = ["network, clock, executor and event loop are simulated (sim/); Cluster, ControlConnection, Session, pools, "
@@ -55,6 +56,7 @@ def s_case(gran):
         st.tuples(st.just("query"), h, st.integers(0, 1)),
         st.tuples(st.just("advance"), st.sampled_from(ADV)),
         st.tuples(st.just("advance"), st.sampled_from(ADV)),
+        st.tuples(st.just("tape"), st.lists(st.integers(0, 3), max_size=8)),
     )
     ev = ev.map(list)
     filler = st.lists(ev, max_size=2)
@@ -89,6 +91,22 @@ def s_case(gran):
     })
 
 
+def enum_chunks(tier):
+    return [{"sessions": n, "maxlen": 4 if tier == "quick" else 6} for n in (1, 2)]
+
+
+def enum_cases(chunk):
+    """the control node announces a host UP while it is still unreachable (two sessions: two failing pool attempts, two
+    on_down tasks racing the clean-up of the failed on_up), under every schedule tape of bounded length"""
+    for k in range(chunk["maxlen"] + 1):
+        for tape in itertools.product((0, 1, 2), repeat=k):
+            if tape and tape[-1] == 0:
+                continue        # trailing zeros are the default choice: same schedule as the shorter tape
+            yield {"hosts": 2, "sessions": chunk["sessions"], "ignored": None, "gran": "blocking", "tape": [],
+                   "events": [["node_down", 0, True], ["advance", 0.3], ["tape", list(tape)], ["status", "UP", 0],
+                              ["advance", 0.15], ["advance", 1.0], ["node_up", 0], ["advance", 1.5]]}
+
+
 def interpret(case, ctx):
     sim = S.Sim(tape=case["tape"], granularity=case["gran"], max_steps=80000)
     try:
@@ -100,26 +118,26 @@ def interpret(case, ctx):
 
 
 def check_sequence(seq):
-    """notification sequence of one Host object -> None or the name of the first broken rule.
-    up/add and down must alternate (a removal in between does not count as coming up), nothing marks a removed
-    Host object up again, a host is removed once."""
-    state, removed = None, False
-    for kind in seq:
+    """notification sequence of one Host object -> (None, None) or (name of the first broken rule, index of the offending
+    notification).  up/add and down must alternate (a removal in between does not count as coming up), nothing marks a
+    removed Host object up again, a host is removed once."""
+    state, removed, last_u = None, False, None
+    for i, kind in enumerate(seq):
         if kind in ("up", "add"):
             if removed:
-                return "%s-after-remove" % kind
+                return "%s-after-remove" % kind, i
             if state == "U":
-                return "%s-after-up" % kind
-            state = "U"
+                return "%s-after-%s" % (kind, last_u), i
+            state, last_u = "U", kind
         elif kind == "down":
             if state == "D":
-                return "down-after-remove" if removed else "down-after-down"
+                return ("down-after-remove" if removed else "down-after-down"), i
             state = "D"
         elif kind == "remove":
             if removed:
-                return "remove-after-remove"
+                return "remove-after-remove", i
             removed = True
-    return None
+    return None, None
 
 
 def _run(case, ctx, sim):
@@ -199,8 +217,11 @@ def _run(case, ctx, sim):
     cluster.register_listener(S.recording_listener(lis_log, clock=lambda: world.now))
     premature = []      # (kind, address, session index): listeners told "up"/"added" while a session has no live pool
 
+    notes = []          # (kind, Host, was Cluster.on_up handling the host at that moment) per listener notification
+
     class PoolWatcher(S.recording_listener([]).__class__):
         def _put(self, kind, host):
+            notes.append((kind, host, bool(host._currently_handling_node_up)))
             if kind in ("up", "add") and policy.distance(host) != HostDistance.IGNORED:
                 for si, s in enumerate(tuple(cluster.sessions)):
                     pool = s._pools.get(host)
@@ -239,7 +260,8 @@ def _run(case, ctx, sim):
                          "%d attempts)" % (where, a, acts[0].rec_created - t0, len(acts[0].rec_attempts)))
                 return False
             if h.is_up is False and not h._currently_handling_node_up and not acts:
-                ctx.fail(["C25.reconnector", "none-active"],
+                ever_up = any(rec[2] is h and rec[0] in ("up", "add") for rec in lis_log)
+                ctx.fail(["C25.reconnector", "none-active", "was-up-before" if ever_up else "never-marked-up"],
                          "%s: host %s is marked down, nobody is handling an up event for it, and it has no active "
                          "reconnection handler" % (where, a))
                 return False
@@ -289,9 +311,14 @@ def _run(case, ctx, sim):
                 a, seq = per[id(hobj)]
                 if a == ignored_addr:
                     continue        # an ignored host is added without being marked up; a later UP event marks it up
-                bad = check_sequence(seq)
+                bad, at = check_sequence(seq)
                 if bad:
-                    ctx.fail(["C25.notify", name, bad], "%s: %s notifications for one Host object of %s: %r" % (where, name, a, seq))
+                    key = ["C25.notify", name, bad]
+                    if name == "listener":
+                        mine = [nt_ for nt_ in notes if nt_[1] is hobj]
+                        if at < len(mine) and mine[at][2]:
+                            key.append("during-on_up")      # delivered while Cluster.on_up was handling that host
+                    ctx.fail(key, "%s: %s notifications for one Host object of %s: %r" % (where, name, a, seq))
                     return False
         # removed hosts are never reconnected: no reconnection attempt for the Host object starts after
         # Cluster.on_remove(host) has returned
@@ -325,7 +352,12 @@ def _run(case, ctx, sim):
             break
         kind = ev[0]
         stable = False
-        if kind == "advance":
+        if kind == "tape":
+            # re-arm the schedule tape here, so that generated choices apply to the events that follow and are not
+            # used up by the initial connect
+            world.tape = [int(x) for x in ev[1]]
+            world.tpos = 0
+        elif kind == "advance":
             sim.advance(ev[1])
             stable = False      # (pool presence is judged at the end: a failed pool renewal is retried after a delay)
         elif kind == "conn_fail":
@@ -447,8 +479,9 @@ def _run(case, ctx, sim):
 
 def parts(tier):
     return [
-        hyp_part("blocking", lambda: s_case("blocking"), interpret, tier, quick=150, thorough=1200,
+        EnumPart("premature-up", enum_chunks(tier), enum_cases, interpret),
+        hyp_part("blocking", lambda: s_case("blocking"), interpret, tier, quick=300, thorough=1200,
                  quick_shards=6, thorough_shards=12),
-        hyp_part("locks", lambda: s_case("locks"), interpret, tier, quick=60, thorough=400,
+        hyp_part("locks", lambda: s_case("locks"), interpret, tier, quick=120, thorough=400,
                  quick_shards=2, thorough_shards=4),
     ]
